@@ -3,6 +3,7 @@
 // in-process server (memory store, AuthZEN and the Check query cache enabled so that context serialisation runs):
 //
 //	c19 <kind> <seed>        kind: check | write | model | list | misc | authzen | batch | numeric
+//	c19 tok <i> / c19 wide <i>   crafted: extreme offsets in well-formed tokens; wide fan-out with an early hit (tokens.go)
 //
 // Every case derives, from its seed alone, a sequence of RPCs: a valid request of the kind with byte-level
 // mutations of its strings (separators, NUL, invalid UTF-8, 10 kB), hostile contexts (nesting 2 000 deep, 20 000
@@ -1116,6 +1117,10 @@ func exec(line string, st *hx.Stats) string {
 		kindF26(seed, o)
 	case "f27":
 		kindF27(seed, o)
+	case "tok":
+		kindTok(seed, o)
+	case "wide":
+		kindWide(seed, o)
 	default:
 		return "badkind"
 	}
@@ -1154,6 +1159,14 @@ func gen(r *hx.Rand, n int, tier string, emit func(string), st *hx.Stats) {
 		emit(fmt.Sprintf("c19 f27 %d", v))
 		st.Inc("crafted-f27")
 	}
+	for v := range hostileOffsets {
+		emit(fmt.Sprintf("c19 tok %d", v))
+		st.Inc("crafted-token-offset")
+	}
+	for v := 0; v < 4; v++ {
+		emit(fmt.Sprintf("c19 wide %d", v))
+		st.Inc("crafted-wide-early-hit")
+	}
 	kinds := []string{"check", "numeric", "batch", "list", "list", "write", "model", "model", "misc", "authzen", "check", "numeric"}
 	for i := 0; i < n; i++ {
 		k := kinds[i%len(kinds)]
@@ -1166,4 +1179,7 @@ func gen(r *hx.Rand, n int, tier string, emit func(string), st *hx.Stats) {
 	}
 }
 
-func main() { hx.Main(hx.Harness{Gen: gen, Exec: exec}) }
+func main() {
+	defer cleanupTok()
+	hx.Main(hx.Harness{Gen: gen, Exec: exec})
+}
